@@ -207,7 +207,7 @@ impl Message {
     /// [`body_beve`](MessageBuilder::body_beve) over a `Vec<T>`.
     pub fn decode_typed_slice<T: beve::BeveTypedSlice>(&self) -> Result<Vec<T>, RepeError> {
         self.require_body_format(BodyFormat::Beve)?;
-        Ok(beve::read_typed_slice(&self.body)?)
+        Ok(read_typed_slice_body(&self.body)?)
     }
 
     /// Decode a BEVE complex-array body into a `Vec<Complex<T>>` via a single
@@ -220,7 +220,7 @@ impl Message {
         &self,
     ) -> Result<Vec<beve::Complex<T>>, RepeError> {
         self.require_body_format(BodyFormat::Beve)?;
-        Ok(beve::read_complex_slice(&self.body)?)
+        Ok(read_complex_slice_body(&self.body)?)
     }
 
     /// `Ok(())` if the body's format matches `expected`, else
@@ -239,6 +239,36 @@ impl Message {
             })
         }
     }
+}
+
+/// BEVE encoding of an empty *generic* array (`[]`). serde has no element to take
+/// a type from when it serializes an empty `Vec<T>`, so `body_beve(&Vec::<T>::new())`
+/// (and a `with_typed` route answering an empty `Vec<T>`) emits this rather than a
+/// zero-length typed array.
+const BEVE_EMPTY_GENERIC_ARRAY: [u8; 2] = [0x05, 0x00];
+
+/// Bulk-read a BEVE typed numeric array body into a `Vec<T>`:
+/// [`beve::read_typed_slice`], plus the one body the serde path produces for a
+/// `Vec<T>` that is not a typed array, the empty vector
+/// ([`BEVE_EMPTY_GENERIC_ARRAY`]). Without it the bulk decoders read every
+/// `Vec<T>` a serde peer sends except the empty one.
+pub(crate) fn read_typed_slice_body<T: beve::BeveTypedSlice>(
+    body: &[u8],
+) -> Result<Vec<T>, beve::Error> {
+    if body == BEVE_EMPTY_GENERIC_ARRAY {
+        return Ok(Vec::new());
+    }
+    beve::read_typed_slice(body)
+}
+
+/// Complex twin of [`read_typed_slice_body`].
+pub(crate) fn read_complex_slice_body<T: beve::BeveTypedSlice>(
+    body: &[u8],
+) -> Result<Vec<beve::Complex<T>>, beve::Error> {
+    if body == BEVE_EMPTY_GENERIC_ARRAY {
+        return Ok(Vec::new());
+    }
+    beve::read_complex_slice(body)
 }
 
 /// Borrowing view over a serialized REPE message.
